@@ -23,6 +23,7 @@ enc_exc = z3.Function("enc_exc", Val, Val, Int)
 enc_tree = z3.Function("enc_tree", Val, Val, BSeq)
 dec_exc = z3.Function("dec_exc", BSeq, Val, Val, Int)
 dec_tree = z3.Function("dec_tree", BSeq, Val, Val, Val)
+dec_len = z3.Function("dec_len", BSeq, Val, Val, Int)         # how many bytes _decode_tree consumes
 
 
 def unknown_cls(c):
@@ -98,7 +99,10 @@ class DecodeTree(IoContract):
         return {"UnknownCodecError": e == 1, "Exception": z3.And(e != 0, e != 1)}
 
     def post(self, c0, c1, a, res):
-        return {"value": to_val(res) == dec_tree(self._b(c0, a), to_val(a.type_tree), to_val(a.get_by_uuid)),
+        s = a.raw_bytes.t
+        n = dec_len(self._b(c0, a), to_val(a.type_tree), to_val(a.get_by_uuid))
+        return {"consumes": z3.And(n >= 0, z3.Select(c1.arr("$stream.pos"), s) == z3.Select(c0.arr("$stream.pos"), s) + n),
+                "value": to_val(res) == dec_tree(self._b(c0, a), to_val(a.type_tree), to_val(a.get_by_uuid)),
                 "codecs_never_produce_UnknownData": z3.Not(is_unknown(c0, to_val(res)))}
 
 
